@@ -192,6 +192,11 @@ func Compile(originConf *Config, exprStr string) (*Expr, error) {
 		return nil, res.err
 	}
 
+	// event reporting adds one event node per node, the doubled program must still be addressable
+	if (conf.CompileOptions[ReportEvent] || conf.CompileOptions[Debug]) && res.size*2 > math.MaxInt16 {
+		return nil, fmt.Errorf("expression with event reporting cannot exceed a maximum of %d nodes, got: [%d]", math.MaxInt16/2, res.size)
+	}
+
 	expr := buildExpr(conf, ast, res.size)
 
 	return expr, nil
